@@ -96,7 +96,7 @@ def run(tier):
             texts = rng.sample(texts_all, 160)
         scen.append(like_scen(pat, texts, "where", "sync" if k % 2 else "emit"))
         if k % (10 if quick else 20) == 0:
-            scen.append(like_scen(pat, rng.sample(texts_all, 60), "case", "sync"))
+            scen.append(like_scen(pat, rng.sample(texts_all, 60) + [None, None], "case", "sync"))      # an explicit NULL text: not true, the ELSE branch
             pass  # SELECT-expression carrier: x LIKE p as a select item is NULL on the unchanged tree (pinned finding LikeInSelectIsNull)
             scen.append(like_scen(pat, rng.sample(texts_all, 60) + [None], "where", "sync", neg=False))
     # IS [NOT] NULL: present / NULL / missing x flat and nested columns x carriers
@@ -108,6 +108,9 @@ def run(tier):
                 scen.append(null_scen(col("s"), flat_rows, carrier, neg, mode))
                 # WHERE o.f IS NULL with the parent object absent is a pinned finding (NestedIsNullParentAbsent)
                 scen.append(null_scen({"t": "path", "p": ["o", "f"]}, nest_rows[:3] if carrier == "where" else nest_rows, carrier, neg, mode))
+    # CASE carrier with NULL texts for the patterns that a stringified NULL could match by accident
+    for k, pat in enumerate(["%", "%%", "_____", "<%", "%i%", "%l>", "<nil>", "<___>", "nil", "%n%", "NULL", "%U%"]):
+        scen.append(like_scen(pat, ["a", None, "<nil>", None, "null", "NULL"], "case", "sync" if k % 2 else "emit"))
     seqfam.run_scenarios(res, scen, "TraceDirect", tag="like")
     hav = [having_scen(rng, ["like", "notnull", "isnull", "like_and_notnull", "notnull_and_like"], ["a%", "%b", "a_", "%", "%a%", "a%b", "x%aab", "_"]) for _ in range(150 if quick else 1500)]
     seqfam.run_scenarios(res, hav, "TracePostAgg", tag="having")
